@@ -282,13 +282,17 @@ def main(pid, tier):
     rep.trusted = TRUSTED
     rep.assumptions = ['value domain of the generator: Python == coincides with equality of canonical JSON text',
                        'differential correspondence is sampled (counts in coverage.correspondence)']
-    proved = core.prove(rep, pid, THEOREMS[pid])
+    proved = core.prove(rep, pid, THEOREMS[pid], extra_targets=(['dcmcode'] if pid == 'C13' else []))
     n = sizes(tier)
     r = core.rng(pid)
     run_corpus(rep, pid, tier)
     replay_known(rep, pid, tier)
     if pid in ('C03', 'C06', 'C13'):
         merge_round(rep, pid, [SM.gen_merge_case(r, tier) for _ in range(n['merge'])], tier)
+    if pid == 'C13':
+        # the translated `_insert` (what `Props/Source_insertall.lean` is about) against the method itself
+        from . import check_codecorr
+        check_codecorr.insert_corr(rep, [SM.gen_merge_case(r, tier) for _ in range(n['merge'])], tier)
     if pid in ('C04', 'C06', 'C13'):
         subset_round(rep, pid, [SM.gen_subset_case(r, tier) for _ in range(n['subset'])], tier)
     if pid == 'C05':
